@@ -35,7 +35,7 @@ func c07Build(seed int64, thorough bool) *c07Lists {
 	s1 := PSIUnit(0x11, 0, [][]byte{SecSDT(sdt, ref.SecHdr{CNI: true})}, []ExpData{{Kind: "SDT", Table: sdt}})
 	sdt2 := modelSDT(1)
 	s2 := PSIUnit(0x11, 0, [][]byte{SecSDT(sdt2, ref.SecHdr{CNI: true, Version: 1})}, []ExpData{{Kind: "SDT", Table: sdt2}})
-	pat, pmt := modelPAT(1, 0x1000), modelPMT(1, 0x100, 2)
+	pat, pmt := modelPAT(0, 0x10, 1, 0x1000), modelPMT(1, 0x100, 2) // network entry (program_number 0) in front of the programme
 	uPAT := PSIUnit(0, 0, [][]byte{SecPAT(pat, ref.SecHdr{CNI: true})}, []ExpData{{Kind: "PAT", Table: pat}})
 	uPMT := PSIUnit(0x1000, 0, [][]byte{SecPMT(pmt, ref.SecHdr{CNI: true})}, []ExpData{{Kind: "PMT", Table: pmt}})
 	l := &c07Lists{pids: []uint16{0x100, 0x101, 0x11, 0, 0x1000}}
